@@ -65,6 +65,33 @@ def pull_helper(fname, meta, repo_root):
     return None
 
 
+def pull_method(mname, meta, repo_root):
+    """R39 for helper METHODS: `self.helper(..)` unknown to the template -> the method is taken verbatim from an `impl` block of the
+    source file of one of the template's items, wrapped in that impl's own header, with the transparent contract `ensures r == body`.
+    Only `&self` methods with an explicit return type; anything else returns None (the run stays undecided)."""
+    for rel in dict.fromkeys(it["file"] for it in meta["items"]):
+        try:
+            src = read(os.path.join(repo_root, rel))
+            a, b = extract.locate(src, "impl .* :: fn " + mname)
+        except Exception:
+            continue
+        item = re.sub(r"^(\s*(///[^\n]*\n|#\[[^\]]*\]\s*\n))*", "", src[a:b])
+        m = re.match(r"\s*(?:pub(?:\([^)]*\))?\s+)?fn\s+" + re.escape(mname) + r"\s*\((\s*&self[^)]*)\)\s*->\s*([^{]+?)\s*\{", item, re.S)
+        if not m:
+            continue
+        k = src.rfind("\nimpl", 0, a)
+        if k < 0:
+            continue
+        hdr = src[k + 1:src.index("{", k)].strip()
+        if " for " in hdr:            # trait impls are verified as inherent methods elsewhere; keep it simple
+            continue
+        params, rty = m.group(1), m.group(2).strip()
+        body = item[m.end() - 1:]
+        return (f"\n// R39 auto-pulled helper method, verbatim from {rel}; contract = its own body read as a spec expression\n"
+                f"{hdr} {{\nfn {mname}({params}) -> (r39_hr: {rty})\n    ensures r39_hr == ({{ let hs: {rty} = {body}; hs }}),\n{body}\n}}\n")
+    return None
+
+
 def run_template(prop, template_path, repo_root=None, rlimit=30, timeout=600, extra_args=(), _helpers=None):
     """-> result dict: ok, undecided(reason) , failures[...], functions[...], meta, cmd, secs, out_path"""
     repo_root = repo_root or REPO
@@ -156,10 +183,18 @@ def run_template(prop, template_path, repo_root=None, rlimit=30, timeout=600, ex
         mm = re.match(r"cannot find function `(\w+)` in this scope", d.get("message", ""))
         if mm and mm.group(1) not in (_helpers or {}) and mm.group(1) not in missing:
             missing.append(mm.group(1))
-    if missing and len(_helpers or {}) < 3:
+    missing_m = []
+    for d in errors:
+        mm = re.match(r"no method named `(\w+)` found for ", d.get("message", ""))
+        if mm and mm.group(1) not in (_helpers or {}) and mm.group(1) not in missing_m:
+            missing_m.append(mm.group(1))
+    if (missing or missing_m) and len(_helpers or {}) < 3:
         hs = dict(_helpers or {})
         for fn_ in missing:
             t = pull_helper(fn_, meta, repo_root)
+            if t: hs[fn_] = t
+        for fn_ in missing_m:
+            t = pull_method(fn_, meta, repo_root)
             if t: hs[fn_] = t
         if len(hs) > len(_helpers or {}):
             return run_template(prop, template_path, repo_root=repo_root, rlimit=rlimit, timeout=timeout, extra_args=extra_args, _helpers=hs)
